@@ -329,7 +329,7 @@ pub fn arb_case(p: TreeParams) -> BoxedStrategy<Case> {
 }
 
 fn run(ctx: &mut Ctx) {
-    let cases = ctx.share(ctx.tier.pick(30_000, 1_000_000));
+    let cases = ctx.share(ctx.tier.pick(100_000, 1_000_000));
     let p = ctx.tier.pick(TreeParams::quick(), TreeParams::thorough());
     run_strategy(ctx, "C11", "functions", cases, arb_case(p), check);
 }
